@@ -35,13 +35,84 @@ def assigned_names(body):
     return names
 
 
+class _Locals:
+    """live view of the locals a loop contract may name: a name that the function's text does not bind at all means that the
+    contract was written for another text (a renamed temporary): the contract does not apply - undecided, never a verdict"""
+
+    def __init__(self, d, known, roles=None):
+        self._d = d
+        self._known = known
+        self._roles = roles or {}
+
+    def _chk(self, k):
+        if self._known is not None and k not in self._known and k not in self._d:
+            raise Unsupported("loop contract names the local %r, which this function's text does not bind "
+                              "(renamed temporary?): the contract does not apply" % k)
+
+    def get(self, k, default=None):
+        k = self._roles.get(k, k)
+        self._chk(k)
+        return self._d.get(k, default)
+
+    def __getitem__(self, k):
+        k = self._roles.get(k, k)
+        self._chk(k)
+        return self._d[k]
+
+    def __contains__(self, k):
+        return self._roles.get(k, k) in self._d
+
+    def __iter__(self):
+        return iter(self._d)
+
+    def keys(self):
+        return self._d.keys()
+
+    def items(self):
+        return self._d.items()
+
+    def values(self):
+        return self._d.values()
+
+
+def _roles(fr, lc):
+    """role -> actual local name, computed from the function's AST by the contract's `names` resolver (so that a contract
+    speaks about "the dictionary that is returned", "the loop's count variable", not about a spelling)"""
+    fnres = lc.get("names")
+    fn = getattr(fr, "func", None)
+    node = getattr(getattr(fn, "ext", None), "node", None)
+    if fnres is None or node is None:
+        return {}
+    try:
+        return dict(fnres(node) or {})
+    except Exception as e:      # the text no longer has the shape the resolver expects
+        raise Unsupported("loop contract: cannot identify the roles of the locals in this text (%s)" % e)
+
+
+def _bound_names(fr):
+    fn = getattr(fr, "func", None)
+    node = getattr(getattr(fn, "ext", None), "node", None)
+    if node is None:
+        return None
+    names = set()
+    for n in ast.walk(node):
+        if isinstance(n, ast.Name) and isinstance(n.ctx, (ast.Store, ast.Del)):
+            names.add(n.id)
+        elif isinstance(n, ast.arg):
+            names.add(n.arg)
+    return names
+
+
 def _mk_env(interp, st, fr, it, old, ghostname, ghost):
     e = E()
     e.interp = interp
     e.st = st
     e.it = it
-    e.old = old
-    e.cur = fr.locals
+    known = _bound_names(fr)
+    roles = getattr(fr, "_loop_roles", {})
+    e.old = _Locals(old, known, roles)
+    e.cur = _Locals(fr.locals, known, roles)
+    e._live = fr.locals
     e.closure = fr.closure
     setattr(e, ghostname, ghost)
     return e
@@ -51,8 +122,11 @@ def _check(interp, st, fr, lc, env, key, phase):
     from . import spec
     for var, fn in lc.get("define", {}).items():
         want = fn(env)
+        if var not in fr.locals:
+            # the contract speaks about a variable that does not exist at this loop: it was written for another loop / text
+            raise Unsupported("loop contract: %r is not bound at loop %s of %s: the contract does not fit this loop" % (var, key[1], key[0]))
         have = fr.locals.get(var)
-        st.oblige("%s.loop%s.%s.%s" % (key[0], key[1], phase, var),
+        st.oblige("%s.loop%s.%s.%s" % (key[0], key[1], phase, lc.get("_role_of", {}).get(var, var)),
                   spec.eq_goal(interp, st, have, want), kind="inv-" + phase)
     inv = lc.get("invariant")
     if inv:
@@ -101,10 +175,34 @@ def havoc_like(interp, st, var, cur):
     raise Unsupported("cannot havoc %s of type %s" % (var, type(cur).__name__))
 
 
+def _check_names(fr, lc):
+    known = _bound_names(fr)
+    if known is None:
+        return
+    for var in list(lc.get("define", {})) + list(lc.get("mutates", [])) + list(lc.get("havoc", {})):
+        if var not in known and var not in fr.locals:
+            raise Unsupported("loop contract names the local %r, which this function's text does not bind "
+                              "(renamed temporary?): the contract does not apply" % var)
+
+
 def for_loop(interp, st, fr, node, it, lc, key):
     from .shims import MapItems
     if node.orelse:
         raise Unsupported("for/else")
+    roles = _roles(fr, lc)
+    if roles:
+        lc = dict(lc)
+        for k in ("define", "havoc"):
+            if k in lc:
+                lc[k] = {roles.get(v, v): f for v, f in lc[k].items()}
+        if "mutates" in lc:
+            lc["mutates"] = [roles.get(v, v) for v in lc["mutates"]]
+        lc["_role_of"] = {v: k for k, v in roles.items()}
+    fr._loop_roles = roles
+    _check_names(fr, lc)
+    if lc.get("iter") is not None and ast.unparse(node.iter) not in (lc["iter"] if isinstance(lc["iter"], (list, tuple)) else [lc["iter"]]):
+        raise Unsupported("loop contract written for `for ... in %s`, this loop iterates `%s`: the contract does not fit this loop"
+                          % (lc["iter"], ast.unparse(node.iter)))
     modified = sorted(assigned_names(node.body) | assigned_names([ast.Expr(value=node.target)]) - set())
     tnames = set()
     for n in ast.walk(node.target):
